@@ -322,12 +322,15 @@ func TestVerif_C16_Swap(t *testing.T) {
 				}
 				return true
 			}
-			if !waitFor(func() bool { return len(d.Stat()) == len(sc.Old) && fc.runs >= 1 }) {
-				panic("C16 swap: first crawl was not installed")
-			}
-			// make sure the first crawl's swap fully completed (rt installed last)
-			if !waitFor(func() bool { d.rtLk.RLock(); defer d.rtLk.RUnlock(); return d.rt.Size() == len(sc.Old) }) {
-				panic("C16 swap: first crawl trie not installed")
+			// wait until the first crawl's swap has fully completed (lastCrawlTime is set in its last step)
+			if !waitFor(func() bool {
+				d.rtLk.RLock()
+				defer d.rtLk.RUnlock()
+				return !d.lastCrawlTime.IsZero() && d.rt.Size() == len(sc.Old)
+			}) {
+				fmt.Printf("VERIF-HARNESS: C16 swap: first crawl not installed within 20 s (stat %d, want %d) - case skipped\n", len(d.Stat()), len(sc.Old))
+				res.Class("harness-timeout")
+				return
 			}
 			points := []string{"swap:addrs-installed", "swap:keymap-installed"}
 			parked := make(chan struct{})
@@ -348,7 +351,9 @@ func TestVerif_C16_Swap(t *testing.T) {
 			select {
 			case <-parked:
 			case <-time.After(20 * time.Second):
-				panic("C16 swap: second crawl did not reach the hook point")
+				fmt.Printf("VERIF-HARNESS: C16 swap: second crawl did not reach the hook point within 20 s - case skipped\n")
+				res.Class("harness-timeout")
+				return
 			}
 			key := c16kp().IDs[sc.Key]
 			type rr struct {
